@@ -677,21 +677,25 @@ def rule_redecl_types(chk, prog, tier):
 
 def rule_extern_hidden(chk, prog, tier):
     r = chk.rule('C09.h', 'a block-scope `extern` declaration (or function declaration) where the visible prior declaration has NO linkage - a local variable of an enclosing block hides the file-scope one - has external linkage and names the '
-                 'global symbol (6.2.2p4: "if the prior declaration specifies no linkage, then the identifier has external linkage")', floor=6, oracle='C11 6.2.2p4')
+                 'global symbol (6.2.2p4: "if the prior declaration specifies no linkage, then the identifier has external linkage")', floor=10, oracle='C11 6.2.2p4')
     models = decl_models(prog, None)
     decl_fn = prog.require_func('decl', 'decl.c'); flush_fn = prog.require_func('emittentativedefns', 'decl.c')
-    for filedecl in (None, D('obj', 'file', ()), D('obj', 'file', ('extern',))):
+    for filedecl in (None, D('obj', 'file', ()), D('obj', 'file', ('extern',)), D('obj', 'file', ('static',)), D('obj', 'file', (), asm=True), D('obj', 'file', ('extern',), asm=True)):
         for outer in (D('obj', 'block', ()), D('obj', 'block', ('static',))):
             for inner in (D('obj', 'inner', ('extern',)), ):
                 hist = ([filedecl] if filedecl else []) + [outer, inner]
-                key = 'extern-hidden:%s{ %s x; { extern int x; } }' % ('%s int x; ' % (' '.join(filedecl.sc) or '') if filedecl else '', ' '.join(outer.sc) or 'auto')
+                key = 'extern-hidden:%s{ %s x; { extern int x; } }' % ('%s int x%s; ' % (' '.join(filedecl.sc) or '', ' __asm__("next_x")' if filedecl.asm else '') if filedecl else '', ' '.join(outer.sc) or 'auto')
                 try:
                     steps, final, ik = run_history(prog, models, hist, decl_fn, flush_fn)
                 except AnalysisBroken as x:
                     r.instance(False, key, 'decl.c:getlinkage', 'analysis of the history failed: %s' % str(x)[-200:]); continue
                 res, evs, bind = steps[-1]
-                ok = res == 'ok' and bind is not None and bind['linkage'] == 'ext' and bind['storage'] == 'static' and bind['sym'] is not None and bind['sym'][0] == 'x' and bind['sym'][1] == 'plain'
-                r.instance(ok, key, 'decl.c:getlinkage', 'the inner declaration must be bound with external linkage to the symbol x; cproc: %s %s' % (res, bind))
+                if filedecl is not None and 'static' in filedecl.sc:
+                    # the file-scope x has internal linkage, the inner one external (the visible prior has none): both linkages in one unit, 6.2.2p7 - diagnosed like every other linkage conflict
+                    r.instance(res != 'ok', key, 'decl.c:declcommon', 'x is declared with internal linkage at file scope and with external linkage in the block: must be diagnosed; cproc: %s' % (res,)); continue
+                want_sym = 'next_x' if filedecl is not None and filedecl.asm else 'x'
+                ok = res == 'ok' and bind is not None and bind['linkage'] == 'ext' and bind['storage'] == 'static' and bind['sym'] is not None and bind['sym'][0] == want_sym and bind['sym'][1] == 'plain'
+                r.instance(ok, key, 'decl.c:getlinkage', 'the inner declaration must be bound with external linkage to the symbol %s (the object the file-scope declaration names); cproc: %s %s' % (want_sym, res, bind))
     r.exhaustive = False
 
 
@@ -834,6 +838,61 @@ def rule_tentative_objects(chk, prog, tier, rid='C09.k'):
     r.exhaustive = False
 
 
+def rule_declarator_lists(chk, prog, tier):
+    r = chk.rule('C09.l', 'each declarator of a declaration is bound to its own symbol: an assembler label names the declarator it follows only - `int a __asm__("sa"), b, c = 3;` defines sa, b and c - and the '
+                 'storage class and type of the declaration apply to every declarator of the list', floor=6, oracle='GNU asm labels (one per declarator); C11 6.7p1')
+    decl_fn = prog.require_func('decl', 'decl.c'); flush_fn = prog.require_func('emittentativedefns', 'decl.c')
+    LISTS = [(('a', 'sa', False), ('b', None, False), ('c', None, True)), (('a', None, False), ('b', 'sb', False), ('c', None, False)), (('a', 'sa', True), ('b', None, True)),
+             (('a', None, True), ('b', 'sb', True), ('c', 'sc', False)), (('a', 'sa', False), ('b', 'sb', False)), (('a', None, False), ('b', None, True), ('c', 'sc', True))]
+    for scs in ((), ('static',)):
+        for lst in LISTS:
+            def runner(it):
+                dw = DeclWorld(prog, it); it.user['dw'] = dw
+                pos = {'i': 0}
+                names = {n: Ptr(it.mkstr(list(n.encode()), n), (0,)) for n, _, _ in lst}
+                labels = {l: Ptr(it.mkstr(list(l.encode()), l), (0,)) for _, l, _ in lst if l}
+                defs = []
+                def declarator(i2, a, e):
+                    s_, base, name, funcscope, allowabstract = a
+                    i2.assign(name.obj, name.path, names[lst[pos['i']][0]]); i2.assign(funcscope.obj, funcscope.path, None)
+                    return StructVal({('type',): dw.w.t('int'), ('qual',): 0, ('expr',): None})
+                def consume(i2, a, e):
+                    k = a[0]
+                    if k == ev(prog, 'TSEMICOLON'):
+                        if pos.get('started') is None: pos['started'] = True; return 0        # not an empty declaration
+                        if pos['i'] == len(lst) - 1: return 1
+                        return 0
+                    if k == ev(prog, 'T__ASM__'): return int(lst[pos['i']][1] is not None)
+                    if k == ev(prog, 'TASSIGN'): return int(lst[pos['i']][2])
+                    return 0
+                def expect(i2, a, e):
+                    if a[0] == ev(prog, 'TSTRINGLIT'): return labels[lst[pos['i']][1]]
+                    if a[0] == ev(prog, 'TCOMMA'): pos['i'] += 1
+                    return None
+                def symname(dd):
+                    v = i2load(dd, ('value',))
+                    return bytes(read_cstr(it, v.obj.f[('u', 'name')])).decode() if isinstance(v, Ptr) else None
+                def i2load(dd, path): return it.load(dd.obj, path)
+                def emitdata(i2, a, e): defs.append(symname(a[0])); return None
+                it.models.update({'declarator': declarator, 'consume': consume, 'expect': expect, 'emitdata': emitdata,
+                                  'scopegetdecl': lambda i2, a, e: None, 'scopeputdecl': lambda i2, a, e: None})
+                it.user['cur'] = D('obj', 'file', scs); it.user['semi'] = []
+                dw.tokobj.f[('kind',)] = ev(prog, 'TSEMICOLON')
+                it.call(decl_fn, [dw.filescope, None])
+                it.call(flush_fn, [])
+                return sorted(defs)
+            runs = explore(prog, runner, decl_models(prog, None), max_runs=4, on_unsupported='keep')
+            text = ', '.join('%s%s%s' % (n, ' __asm__("%s")' % l if l else '', ' = 1' if i else '') for n, l, i in lst)
+            key = 'declarator-list:%sint %s;' % ('static ' if scs else '', text)
+            if len(runs) != 1 or runs[0].outcome != 'return':
+                raise AnalysisBroken('%s: %s' % (key, [(x.outcome, x.detail) for x in runs][:2]))
+            want = sorted(l or n for n, l, _ in lst)
+            got = runs[0].value
+            # local (static) symbols carry a uniquifying suffix in mkglobal only for block scope; at file scope the names are used as they are
+            r.instance(got == want, key, 'decl.c:%s' % decl_fn.get('line'), 'the unit must define the symbols %s; cproc defines %s' % (want, got))
+    r.exhaustive = False
+
+
 def run(chk, tier):
     prog = facts.programs()['cproc-qbe']
     chk.guard('C09.b', lambda: rule_histories(chk, prog, tier))
@@ -846,3 +905,6 @@ def run(chk, tier):
     chk.guard('C09.g', lambda: rule_typedef_function(chk, prog, tier))
     chk.guard('C09.j', lambda: rule_func_name_once(chk, prog, tier))
     chk.guard('C09.k', lambda: rule_tentative_objects(chk, prog, tier))
+    chk.guard('C09.l', lambda: rule_declarator_lists(chk, prog, tier))
+    from props import c10
+    chk.guard('C10.x', lambda: c10.rule_specifier_sets(chk, prog, tier))     # the storage-class and function specifiers the linkage rules start from are the ones written
